@@ -205,14 +205,19 @@ def pytorch_stft_frame_computer(
     spect = torch.fft.rfft(sig, dft_size_, 1, "backward")
     del sig
     half_len = spect.size(1)
-    mod = half_len % 2
+    # bins half_len..dft_size-1 are the conjugates of bins num_mirrored..1
+    num_mirrored = dft_size_ - half_len
     for si, filt in zip(offsets, filters):
         val, consumed, conj, filt_len = zero, 0, False, len(filt)
         while consumed < filt_len:
             if conj:
-                seg_len = max(min(si + filt_len - consumed, half_len - 2 + mod) - si, 0)
-                seg = spect[..., -2 + mod - si - seg_len : -2 + mod - si].conj().flip(1)
-                si -= half_len - 2 + mod
+                seg_len = max(min(si + filt_len - consumed, num_mirrored) - si, 0)
+                seg = (
+                    spect[..., num_mirrored - si - seg_len + 1 : num_mirrored - si + 1]
+                    .conj()
+                    .flip(1)
+                )
+                si -= num_mirrored
             else:
                 seg_len = max(0, min(si + filt_len - consumed, half_len) - si)
                 seg = spect[..., si : si + seg_len]
